@@ -181,6 +181,9 @@ func (c *cCatalog) probes() []cProbe {
 		trigs = append(trigs, fmt.Sprintf("(%s,%s,%s,%s)", qs(tn), qs(tr.event), qs(tr.table), qs(tr.time)))
 		showTrigs = append(showTrigs, fmt.Sprintf("(%s,%s,%s,%s)", qs(tn), qs(tr.event), qs(tr.table), qs(tr.time)))
 	}
+	add("is.triggers.other-databases", "SELECT trigger_schema, trigger_name, event_object_table FROM information_schema.triggers WHERE trigger_schema IN ('c0', 'd2')", []string{"('c0','xtr','x')", "('d2','ytr','y')"}, false)
+	add("is.tables.other-databases", "SELECT table_schema, table_name FROM information_schema.tables WHERE table_schema IN ('c0', 'd2')", []string{"('c0','x')", "('c0','xv')", "('d2','y')", "('d2','yv')"}, false)
+	add("is.views.other-databases", "SELECT table_schema, table_name FROM information_schema.views WHERE table_schema IN ('c0', 'd2')", []string{"('c0','xv')", "('d2','yv')"}, false)
 	add("is.triggers", "SELECT trigger_name, CONCAT(event_manipulation, ''), event_object_table, CONCAT(action_timing, '') FROM information_schema.triggers WHERE trigger_schema = 'd'", trigs, false)
 	add("show triggers", "SHOW TRIGGERS", showTrigs, false)
 	for _, p := range sortedKeys(c.procs) {
@@ -248,6 +251,14 @@ func checkC43(env *kernel.Env) {
 		return &Sess{W: w, ID: w.nextID, S: ms, Name: fmt.Sprintf("s%d", w.nextID)}
 	}
 	sessions := []*Sess{rootSess(), rootSess()}
+	// two further databases (one sorting before d, one after), each with a table, a trigger and a
+	// view of its own: what they hold is listed under their own schema only
+	for _, q := range []string{
+		"CREATE DATABASE c0", "CREATE TABLE c0.x (id INT PRIMARY KEY)", "CREATE TRIGGER c0.xtr BEFORE INSERT ON c0.x FOR EACH ROW SET NEW.id = NEW.id", "CREATE VIEW c0.xv AS SELECT id FROM c0.x",
+		"CREATE DATABASE d2", "CREATE TABLE d2.y (id INT PRIMARY KEY)", "CREATE TRIGGER d2.ytr AFTER DELETE ON d2.y FOR EACH ROW SET @x = 1", "CREATE VIEW d2.yv AS SELECT id FROM d2.y",
+	} {
+		sessions[0].MustExec(q)
+	}
 	cat := &cCatalog{tables: map[string]*cTable{}, views: map[string]string{}, trigs: map[string]*cTrig{}, procs: map[string]string{}}
 	n := 0
 	fresh := func(prefix string) string { n++; return fmt.Sprintf("%s%d", prefix, n) }
